@@ -33,7 +33,7 @@ func GenericRules(c *an.Ctx) {
 					continue
 				}
 				o.SitePos(c.P.Pos(g.Pos()))
-				for _, f := range an.ValidityLints(g) {
+				for _, f := range append(an.ValidityLints(g), an.LockBalanceLints(g)...) {
 					if ex, ok := validityExceptions[an.RelPkg(g)+"."+an.QualName(g)]; ok && strings.Contains(f.Msg, ex.contains) {
 						o.Note("exception in %s: %s", an.QualName(g), ex.reason)
 						continue
